@@ -72,7 +72,9 @@ func (c *singleCheckout) Run(p *lfs.WrappedPointer) {
 	filepointer, err := lfs.DecodePointerFromFile(cwdfilepath)
 	if err != nil {
 		if os.IsNotExist(err) {
-			output, err := git.DiffIndexWithPaths("HEAD", true, []string{p.Name})
+			// git diff-index interprets paths relative to the current
+			// directory, like cwdfilepath and unlike p.Name.
+			output, err := git.DiffIndexWithPaths("HEAD", true, []string{cwdfilepath})
 			if err != nil {
 				LoggedError(err, tr.Tr.Get("Checkout error trying to run diff-index: %s", err))
 				return
